@@ -53,6 +53,11 @@ CLAIMED.update({
             "note": "PARTIAL: before_connect's identical loop did not finish under CBMC; the call sites in connect_with_opts / conn_from_noq_conn, the self-connect and empty-ALPN checks need a bound Endpoint / live connection and are by reading."},
 })
 
+CLAIMED.update({
+    "C01": {"text": "Kernel only: the handshake signature verifier accepts exactly when the presented raw public key is 32 bytes forming a valid point, the signature is 64 bytes and the signature oracle accepts that (key, transcript, signature) - i.e. proof of possession is checked against the presented key; client certificates are accepted only without intermediates; raw public keys are required.",
+            "note": "PARTIAL: verify_server_cert (certificate must be the SPKI of the dialed id) and the TLS name encode/decode round trip do not finish under CBMC (str::split two-way searcher, format!); the TLS handshake, remote_id_from_noq_conn and connect_with_opts need live connections. A mutation of verify_server_cert or name::decode is NOT detected."},
+})
+
 NA_WALL12 = "needs live tokio tasks/timers/channels (thread-locals with destructors make kani-compiler 0.68 ICE; Kani does not model concurrency): no decisive kernel can be symbolically executed"
 PENDING = "harness not built yet in this revision (planned, DESIGN.md section 4); not claimed until its check exists and passes"
 NOT_APPLICABLE = {
@@ -82,6 +87,6 @@ NOT_APPLICABLE["C17"] = "RelayTransport::poll_recv was driven on a partially ini
 NOT_APPLICABLE["C29"] = "AddressLookupStream merges its services with futures-buffered's MergeBounded/FuturesUnorderedBounded: any harness that reaches its poll_next makes kani-compiler 0.68 panic (intrinsics.rs:243, thread-local with destructor); the stream's own 30-line state machine cannot be driven without it (harness kept in kani/attic/)"
 NOT_APPLICABLE["C30"] = "needs interleavings of add_boxed and publish at lock boundaries: Kani has no threads; the planned nested-call schedule encoding needs pause hooks placed between two critical sections of the real code, which a correct (lock-holding) implementation does not have - the check could then no longer detect the regression it is meant for; the lost update found by reading (add reads last_data, a publish runs, the service is pushed with stale data) is an observation in DESIGN section 5"
 NOT_APPLICABLE["C31"] = "the subject is string formatting/parsing of TXT attributes (format!, Display, FromStr, split): formatting machinery does not finish under CBMC (a single format! of a u64 timed out at 15 min) and the attribute table is a BTreeMap of Strings"
-for _p in ["C01"]:
+for _p in []:
     NOT_APPLICABLE.setdefault(_p, PENDING)
 
